@@ -21,8 +21,8 @@ claimed.update({
  "C03": dict(text="Deductive proof that the hierarchy search (entityInOne, entityInSet) returns true exactly when the target is reachable: soundness by an invariant over the visited set, completeness by exhibiting a set closed under the parent relation that contains the start and excludes the target (induction principle of the closure stated as an axiom); termination on every graph by a lexicographic loop measure (stored entities not yet marked, stack height); the scope forms decided by the partial evaluator (partialScopeEval: ==, in, in-set sound and complete, is, is-in) agree with the operator; mapset operations against their set view.",
              note="reach is axiomatised (reflexive, closed under edges, least: closure-induction axiom). The termination measure counts stored entities, i.e. assumes a finite store (three cardinality facts are axioms). The scope forms of the *compiled* policy are the C02 contracts of scopeToNode plus the evaluator contracts of ==, in, is. EntityGetter.Get is assumed deterministic. One recorded finding shared with C14 (error message of `x in <set>`).",
              ref="DESIGN.md §6 C03"),
- "C10": dict(text="Deductive panic-freedom sweep (index/slice bounds, nil dereference incl. pointers into recursive structures, type assertions, explicit panics, nil-map writes; loop termination measures where stated) of: the whole Cedar text parser (cedar_unmarshal.go) under the parser representation invariant, the Cedar text encoder (cedar_marshal.go) for every well-formed AST, the JSON policy decoder's node conversion (json_unmarshal.go), entity-UID/pattern code, the schema text lexer, the decimal/duration/datetime/ip parsers and PolicySet.UnmarshalJSON; holds for every token list / input string / decoded document.",
-             note="Covers the functions listed in evidence only (135). Not covered: Policy.UnmarshalJSON and nodeJSON.UnmarshalJSON themselves (outside the subset), JSON encoders, entity/value/schema JSON, tokenizer, stack depth of the recursive-descent parser and of ToNode. Assumed: Tokenize returns a list ending in EOF; the encoder's input tree has no nil children and consists of x/exp/ast node types (sweep option wellformed); encoding/json.Unmarshal results are arbitrary values of the target types.",
+ "C10": dict(text="Deductive panic-freedom sweep (index/slice bounds, nil dereference incl. pointers into recursive structures, type assertions, explicit panics, nil-map writes; loop termination measures where stated) of: the whole Cedar text parser (cedar_unmarshal.go) under the parser representation invariant, the Cedar text encoder (cedar_marshal.go) for every well-formed AST, the JSON policy decoder's node conversion (json_unmarshal.go), the whole types package apart from two floating-point helpers (value JSON decoder incl. the empty byte string, sets, records, entities, entity maps, scalars and their parsers and printers; stored values assumed non-nil), the schema-guided entity/value decoder (x/exp/types), the schema text lexer and PolicySet.UnmarshalJSON; holds for every token list / input string / decoded document.",
+             note="Covers the functions listed in evidence only (245). Not covered: Policy.UnmarshalJSON and nodeJSON.UnmarshalJSON themselves (outside the subset), JSON encoders, entity/value/schema JSON, tokenizer, stack depth of the recursive-descent parser and of ToNode. Assumed: Tokenize returns a list ending in EOF; the encoder's input tree has no nil children and consists of x/exp/ast node types (sweep option wellformed); encoding/json.Unmarshal results are arbitrary values of the target types.",
              ref="DESIGN.md §6 C10"),
  "C19": dict(text="Frame proof (syntactic assigns/modifies analysis, transitive over callees) that the read-only entry points (Authorize, IsAuthorized, Marshal*, accessors) write only memory they allocated themselves; two calls that only read shared memory cannot race and a function of immutable inputs returns what it would return alone.",
              note="Concurrency itself (interleavings, the race detector) is outside this technique; the frame condition is the sufficient condition decided here. Interface methods and unlisted standard-library callees are assumed not to write through their arguments.",
